@@ -64,6 +64,29 @@ func init() {
 		"strings.Repeat":                 sumRepeat,
 		"strconv.Itoa":                   sumItoa,
 		"strconv.ParseInt":               sumParseInt,
+		"strconv.FormatBool": func(fr *frame, a []value) value {
+			if fr.m.branch(a[0].(*Term)) {
+				return mkStr("true")
+			}
+			return mkStr("false")
+		},
+		"strconv.FormatFloat": func(fr *frame, a []value) value {
+			f := fr.m.simplify(a[0].(*Term))
+			if !f.IsConst() {
+				return Str{Opaque: true}
+			}
+			fm := fr.m.concretize(a[1].(*Term), 1, "fmt")
+			pr := fr.m.concretize(a[2].(*Term), 1, "prec")
+			bs := fr.m.concretize(a[3].(*Term), 1, "bits")
+			return mkStr(strconv.FormatFloat(f.F, byte(fm), int(pr), int(bs)))
+		},
+		"strconv.FormatInt": func(fr *frame, a []value) value {
+			t := fr.m.simplify(a[0].(*Term))
+			if !t.IsConst() {
+				return Str{Opaque: true}
+			}
+			return mkStr(strconv.FormatInt(t.Int(), int(fr.m.concretize(a[1].(*Term), 1, "base"))))
+		},
 		"math.Abs":                       func(fr *frame, a []value) value { return fr.m.ctx.FAbs(a[0].(*Term)) },
 		"math.Trunc":                     func(fr *frame, a []value) value { return fr.m.ctx.FRound(a[0].(*Term), 0) },
 		"math.Floor":                     func(fr *frame, a []value) value { return fr.m.ctx.FRound(a[0].(*Term), 1) },
@@ -616,6 +639,12 @@ func sumToString(fr *frame, a []value) value {
 			}
 			return mkStr("false")
 		}
+	}
+	if sl, ok := v.v.([]value); ok && len(sl) == 0 && v.t != nil {
+		return mkStr("") // an empty list formats as the empty string
+	}
+	if v.t != nil && v.t == m.prog.rtErrType {
+		return v.v.(Str)
 	}
 	if n, ok := m.toNative(v); ok {
 		if _, isTime := n.(time.Time); isTime {
